@@ -47,7 +47,7 @@ def run(ck):
         import gen_charclass
         ck.write_generated("CharClass.lean", gen_charclass.generate(REPO, ck.work))
     except Exception as e:
-        ck.machinery_error("translator gen_charclass failed: %r" % (e,)); return
+        ck.translator_failed("translator gen_charclass failed: %r" % (e,))
     if not ck.build_driver(): return
     if not ck.prove():
         ck.report_proof_failure("theorems about the environment-expansion model no longer build (the character classes of is_var_name_char / is_path_delim are regenerated on every run)")
